@@ -662,7 +662,23 @@ func runCase(c caseT) (stats []msgStat, fl *failure) {
 		r.o.ServerKey = keys.Get("b", c.ServerBits)
 	}
 	p, err := chanpair.New(r.o)
+	for try := 0; err != nil && try < 2; try++ {
+		p, err = chanpair.New(r.o)
+	}
 	if err != nil {
+		// The OpenSecureChannel exchange is chunk traffic too: if this
+		// configuration cannot open a channel three times in a row while a
+		// control configuration (same policy and mode, equal smallest keys,
+		// default buffers) opens at once, the OPN chunks do not round-trip.
+		ctl := chanpair.Options{Policy: r.o.Policy, Mode: r.o.Mode, RequestTimeout: r.o.RequestTimeout}
+		if c.Mode != modeNone {
+			ks := chanpair.KeySizes(r.o.Policy)
+			ctl.ClientKey, ctl.ServerKey = keys.Get("a", ks[0]), keys.Get("b", ks[0])
+		}
+		if cp, cerr := chanpair.New(ctl); cerr == nil {
+			cp.Close()
+			return nil, &failure{msg: fmt.Sprintf("no channel can be opened in this configuration (3 attempts: %v) although the same policy and mode with equal %s-bit keys and default buffers opens at once: the OpenSecureChannel chunks are not accepted by the peer", err, "smallest")}
+		}
 		return nil, &failure{msg: "chanpair: " + err.Error(), infra: true}
 	}
 	defer p.Close()
